@@ -20,7 +20,7 @@ from .common import *  # noqa: F401,F403
 from . import detmodel as D
 from .C02 import T, START, steps_spec, N
 
-TRUSTED = ["helpers that receive neither the detector nor a clock value are deterministic functions of their arguments (memoised uninterpreted results)",
+TRUSTED = ["helpers that receive neither the detector nor a clock value are deterministic functions of their arguments (memoised uninterpreted results) and may return the same array object for equal arguments (the model must not write into it)",
            "real arithmetic (two schedules agree only up to rounding in binary64)", "astropy Quantity/Unit/constants: values carried exactly, unit conversions multiply by a positive constant of the two units (contracts/quantity.py); np.exp and x ** 1.5 uninterpreted; dark current with shot noise or fixed-pattern noise is outside the property (not deterministic)",
            "load_cropped_and_aligned_image returns the same array for the same file within a run (C20)"]
 G = D.GEN
@@ -42,7 +42,12 @@ def pure_contract(qual, name):
             ex.st.assume(f(*G) >= 0)          # fluxes / loaded images are non-negative
             memo[key] = f
         f = memo[key]
-        return ex.st.alloc(HArr((D.ROWS, D.COLS), VDtype("float64"), lambda ix, f=f: VFloat(f(z_int(ix[0]), z_int(ix[1])))))
+        # the helper may hand out the SAME array object for equal arguments (a cache, a module-level table): a caller that scales it
+        # in place would corrupt every later step. The contract therefore returns one object per argument tuple.
+        objs = ex.st.ghost.setdefault("PURE_OBJ", {})
+        if key not in objs:
+            objs[key] = ex.st.alloc(HArr((D.ROWS, D.COLS), VDtype("float64"), lambda ix, f=f: VFloat(f(z_int(ix[0]), z_int(ix[1])))))
+        return objs[key]
     return Contract(qual, apply, f"{name}: deterministic function of its arguments")
 
 
@@ -103,13 +108,13 @@ def run(model, steps_times, kwargs, bucket):
         out.append(np.array(getattr(det, bucket).array))
     return out
 VIOLATED, DETAIL = False, ''
-for model, kwargs, bucket in ((illumination, dict(level=3.0), 'photon'), (stripe_pattern, dict(period=2, level=5.0), 'photon'),
+for model, kwargs, bucket in ((illumination, dict(level=3.0), 'photon'), (stripe_pattern, dict(period=2, level=5.0), 'photon'), (stripe_pattern, dict(period=2, level=5.0, angle=25), 'photon'),
                               (load_image, dict(image_file=fn), 'photon'), (load_charge, dict(filename=fn), 'charge'),
                               (dark_current, dict(figure_of_merit=2.0, temporal_noise=False), 'charge'),
                               (dark_current, dict(figure_of_merit=2.0, temporal_noise=False, band_gap=1.1, band_gap_room_temperature=1.12), 'charge')):
-    a, b = run(model, [(1.0, 1.0), (4.0, 3.0)], kwargs, bucket)
-    if not np.allclose(a * 3.0, b):
-        VIOLATED, DETAIL = True, f'{model.__name__}: increment for a 3 s step is not 3x the increment of a 1 s step: {a.ravel()[:3]} vs {b.ravel()[:3]}'
+    a, b = run(model, [(2.0, 2.0), (5.0, 3.0)], kwargs, bucket)
+    if not np.allclose(a * 1.5, b) or not np.any(b > 0):
+        VIOLATED, DETAIL = True, f'{model.__name__}{kwargs if model is stripe_pattern else ""}: increment for a 3 s step is not 1.5x the increment of a 2 s step: {a.ravel()[:3]} vs {b.ravel()[:3]}'
 """, "expect": "the increment of a flux model is proportional to its own time step and independent of the rest of the clock"}
 
 
